@@ -1,7 +1,7 @@
 (** extraction of the C09 model (sign tables regenerated from the source + specs) *)
 Require Import FastZ.
-From Dashu Require Import Base.Prelude Base.Words Int.BitsSpec Int.BitsWords Int.BitsKernels Int.BitsForms.
-From DashuGen Require Import SignTables BitsFormsGen.
+From Dashu Require Import Base.Prelude Base.Words Int.BitsSpec Int.BitsWords Int.BitsKernels Int.BitsForms Int.BitsSignedWords.
+From DashuGen Require Import SignTables BitsFormsGen BitsKernelsGen.
 Extraction "model.ml"
   signed sign_of
   ibig_bitand_gen ibig_bitor_gen ibig_bitxor_gen ubig_ibig_bitand_gen ibig_ubig_bitand_gen
@@ -19,4 +19,8 @@ Extraction "model.ml"
   zop ubig_op ibig_op ubig_prim_asis ibig_prim_asis ubig_prim_assign_asis ibig_prim_assign_asis
   ubig_assign_asis ibig_assign_asis ubig_shl_form ubig_shr_form ibig_shl_form ibig_shr_form brepr_layout
   gen_bitand_vv gen_bitand_vr gen_bitand_rv gen_bitand_rr gen_bitor_vv gen_bitor_vr gen_bitor_rv gen_bitor_rr
-  gen_bitxor_vv gen_bitxor_vr gen_bitxor_rv gen_bitxor_rr.
+  gen_bitxor_vv gen_bitxor_vr gen_bitxor_rv gen_bitxor_rr
+  from_buffer shl_in_place_gen shr_in_place_with_carry_gen bitand_large_gen bitor_large_gen bitxor_large_gen and_not_large_gen
+  trailing_zeros_large_gen trailing_ones_large_gen trailing_zeros_large_shifted_by_one_gen count_ones_large_gen
+  are_slice_low_bits_nonzero_gen
+  repr_add_one repr_sub_one ibig_not_words ibig_bitand_words ibig_bitor_words ibig_bitxor_words ibig_shr_words.
